@@ -214,27 +214,91 @@ def branch_env(fn, bid, ev, is_main):
     return frozenset(env.items())
 
 
-def default_infeasible(prog, fn, call):
-    """A diagnostic under `default:` of `switch (table[n].field)` is infeasible when every value of that
-    field in the table's rows has its own `case` (the table is a constant; exhaustive comparison)."""
-    from nk import tables
-    sw = None
-    under_default = False
-    for a in fn.ancestors(call):
-        if a['k'] == 'DefaultStmt' and sw is None:
-            under_default = True
-        elif a['k'] == 'CaseStmt' and not under_default and sw is None:
-            return None
-        elif a['k'] == 'SwitchStmt':
-            sw = a
-            break
-    if sw is None or not under_default:
-        return None
-    # condition: the child of the switch that is an expression listed as the CFG terminator condition
-    cond = None
+def _default_only_switches(fn):
+    """For each switch with a default label: (switch node, dispatch block id, blocks reachable ONLY through the
+    dispatch->default edge).  Cached per function."""
+    cache = getattr(fn, '_defonly', None) if hasattr(fn, '_defonly') else None
+    res = []
     for b in fn.blocks.values():
-        if b.get('term') == sw['i']:
-            cond = fn.nodes.get(b.get('cond'))
+        if b.get('termk') != 'SwitchStmt':
+            continue
+        sw = fn.nodes.get(b.get('term'))
+        if sw is None:
+            continue
+        bdef = None
+        for s_ in b['s']:
+            if s_ is None:
+                continue
+            lab = fn.nodes.get(fn.blocks[s_].get('label'))
+            if lab is not None and lab['k'] == 'DefaultStmt':
+                bdef = s_
+        if bdef is None:
+            continue
+        # reachability from entry without the edge dispatch -> default
+        seen = {fn.entry}
+        st = [fn.entry]
+        while st:
+            x = st.pop()
+            for y in fn.succs(x):
+                if x == b['id'] and y == bdef:
+                    continue
+                if y not in seen:
+                    seen.add(y)
+                    st.append(y)
+        only = set(fn.reachable_blocks()) - seen
+        res.append((sw, b['id'], only))
+    return res
+
+
+_def_cache = {}
+_dead_cache = {}
+
+
+def dead_default_edges(prog, fn):
+    """(dispatch, default-block) edges of switches whose default is infeasible (see default_infeasible)."""
+    if fn.key in _dead_cache:
+        return _dead_cache[fn.key]
+    out = set()
+    _dead_cache[fn.key] = out
+    for b in fn.blocks.values():
+        if b.get('termk') != 'SwitchStmt':
+            continue
+        for s_ in b['s']:
+            if s_ is None:
+                continue
+            lab = fn.nodes.get(fn.blocks[s_].get('label'))
+            if lab is not None and lab['k'] == 'DefaultStmt':
+                first = None
+                for e in fn.blocks[s_]['e']:
+                    first = fn.nodes.get(e)
+                    if first is not None:
+                        break
+                if first is not None and default_infeasible(prog, fn, first):
+                    out.add((b['id'], s_))
+    return out
+
+
+def default_infeasible(prog, fn, call):
+    """A statement that is reachable only through the `default:` edge of `switch (table[n].field)` is infeasible
+    when every value of that field, over the rows of the never-written table that can reach the switch (rows
+    excluded by a dominating `table[n].g == K -> continue` guard are left out), has its own `case`."""
+    from nk import tables
+    from nk.cfg import dominators
+    w = fn.block_of(call)
+    if w is None:
+        return None
+    key = fn.key
+    if key not in _def_cache:
+        _def_cache[key] = _default_only_switches(fn)
+    sw = None
+    for cand, dispatch, only in _def_cache[key]:
+        if w[0] in only:
+            if sw is None or len(only) < len(sw[2]):
+                sw = (cand, dispatch, only)
+    if sw is None:
+        return None
+    sw, dispatch, _ = sw
+    cond = fn.nodes.get(fn.blocks[dispatch].get('cond'))
     if cond is None:
         return None
     c = strip(cond, casts=True)
@@ -275,6 +339,51 @@ def default_infeasible(prog, fn, call):
     if not g.get('const') and prog.global_writes().get(arr['n']):
         return None
     field = c['n']
+    # guards `table[n].g == K` dominating the switch whose true edge cannot reach it
+    excluded = []
+    if fn._dom is None:
+        fn._dom = dominators(fn)
+    dom = fn._dom
+    for bid in dom.get(dispatch, ()):
+        b = fn.blocks[bid]
+        gc = fn.nodes.get(b.get('cond'))
+        if gc is None or b.get('termk') != 'IfStmt' or len(b['s']) != 2:
+            continue
+        gcs = strip(gc)
+        if gcs['k'] != 'BinaryOperator' or gcs.get('op') not in ('==', '!='):
+            continue
+        l, k0 = strip(kids(gcs)[0], casts=True), const(kids(gcs)[1])
+        if k0 is None or l['k'] != 'MemberExpr' or not kids(l):
+            continue
+        lb = strip(kids(l)[0])
+        if lb['k'] != 'ArraySubscriptExpr' or strip(kids(lb)[0]).get('n') != arr['n']:
+            continue
+        t_edge, f_edge = b['s']
+        def reaches(src):
+            if src is None:
+                return False
+            seen = {src}
+            st = [src]
+            while st:
+                x = st.pop()
+                if x == dispatch:
+                    return True
+                if x == bid:
+                    continue
+                for y in fn.succs(x):
+                    if y not in seen:
+                        seen.add(y)
+                        st.append(y)
+            return False
+        rt, rf = reaches(t_edge), reaches(f_edge)
+        if gcs['op'] == '==' and rf and not rt:
+            excluded.append((l['n'], k0, True))      # rows with g == K never reach the switch
+        elif gcs['op'] == '!=' and rt and not rf:
+            excluded.append((l['n'], k0, True))
+        elif gcs['op'] == '!=' and rf and not rt:
+            excluded.append((l['n'], k0, False))     # only rows with g == K reach it
+        elif gcs['op'] == '==' and rt and not rf:
+            excluded.append((l['n'], k0, False))
     vals = set()
     for r in rws:
         if not r:
@@ -285,6 +394,17 @@ def default_infeasible(prog, fn, call):
         # the sentinel row (null mnemonic) never reaches the switch
         first = r.get(fields[0])
         if tables.is_null(first):
+            continue
+        skip = False
+        for gname, k0, eq_excluded in excluded:
+            gv = const(r.get(gname)) if r.get(gname) is not None else None
+            if gv is None:
+                continue
+            if eq_excluded and gv == k0:
+                skip = True
+            if not eq_excluded and gv != k0:
+                skip = True
+        if skip:
             continue
         vals.add(v)
     cases = set()
@@ -302,7 +422,7 @@ def default_infeasible(prog, fn, call):
     missing = vals - cases
     if missing:
         return None
-    return 'default branch infeasible: all %d values of %s[].%s have a case in this switch' % (len(vals), arr['n'], field)
+    return 'default branch infeasible: all %d values of %s[].%s that reach this switch have a case' % (len(vals), arr['n'], field)
 
 
 def _paths_after(fn, w, ev, is_main, env0=frozenset()):
